@@ -688,6 +688,27 @@ type relOrderV2 struct {
 
 func (relOrderV2) TableName() string { return "c20_orders" }
 
+// the referenced model grows too: v2 of the owner has one more field with a default and an index
+type relOwnerV2 struct {
+	ID   uint
+	Name string
+	Tier string `gorm:"default:'std';index"`
+}
+
+func (relOwnerV2) TableName() string { return "c20_owners" }
+
+// v2 of the order referring to v2 of the owner
+type relOrderV3 struct {
+	ID      uint
+	Marker  int64
+	Number  string `gorm:"index"`
+	OwnerID uint
+	Owner   *relOwnerV2
+	Note    string `gorm:"default:'n/a'"`
+}
+
+func (relOrderV3) TableName() string { return "c20_orders" }
+
 type relCase struct {
 	Disable bool `json:"DisableForeignKeyConstraintWhenMigrating"`
 	Ignore  bool `json:"IgnoreRelationshipsWhenMigrating"`
@@ -695,6 +716,8 @@ type relCase struct {
 	Rows    int  `json:"rows"`
 	// Explicit: migrate(v2) names both models in one call: "" (order model only), "owner-first", "order-first"
 	Explicit string `json:"explicit_models"`
+	// OwnerGrows: in v2 the referenced (owner) model gains a field and an index as well
+	OwnerGrows bool `json:"owner_grows"`
 }
 
 func (c relCase) String() string {
@@ -702,7 +725,7 @@ func (c relCase) String() string {
 	if c.V1Rel {
 		v1 = "v1 with belongs-to"
 	}
-	return fmt.Sprintf("DisableForeignKeyConstraintWhenMigrating=%v IgnoreRelationshipsWhenMigrating=%v %s rows=%d -> v2 = belongs-to + added field (AutoMigrate models: %q)", c.Disable, c.Ignore, v1, c.Rows, c.Explicit)
+	return fmt.Sprintf("DisableForeignKeyConstraintWhenMigrating=%v IgnoreRelationshipsWhenMigrating=%v %s rows=%d -> v2 = belongs-to + added field (AutoMigrate models: %q; referenced model grows: %v)", c.Disable, c.Ignore, v1, c.Rows, c.Explicit, c.OwnerGrows)
 }
 
 func ordersDDL(d *testdb.DB) string {
@@ -777,14 +800,26 @@ func (c relCase) run() string {
 	if s, _ := dumpSchema(d); s != schema1 {
 		return "second migrate(v1) changed the schema:\n before: " + schema1 + " after: " + s
 	}
+	v2order := func() interface{} {
+		if c.OwnerGrows {
+			return &relOrderV3{}
+		}
+		return &relOrderV2{}
+	}
+	v2owner := func() interface{} {
+		if c.OwnerGrows {
+			return &relOwnerV2{}
+		}
+		return &relOwner{}
+	}
 	v2models := func() []interface{} {
 		switch c.Explicit {
 		case "owner-first":
-			return []interface{}{&relOwner{}, &relOrderV2{}}
+			return []interface{}{v2owner(), v2order()}
 		case "order-first":
-			return []interface{}{&relOrderV2{}, &relOwner{}}
+			return []interface{}{v2order(), v2owner()}
 		}
-		return []interface{}{&relOrderV2{}}
+		return []interface{}{v2order()}
 	}
 	if err := d.DB.AutoMigrate(v2models()...); err != nil {
 		return "migrate(v2) failed: " + err.Error()
@@ -792,7 +827,7 @@ func (c relCase) run() string {
 	if msg := fkState("after migrate(v2)", true); msg != "" {
 		return msg
 	}
-	if !d.DB.Migrator().HasColumn(&relOrderV2{}, "Note") {
+	if !d.DB.Migrator().HasColumn(v2order(), "Note") {
 		return "after migrate(v2): column note does not exist"
 	}
 	if got := rowsDump(); got != data1 {
@@ -800,7 +835,7 @@ func (c relCase) run() string {
 	}
 	// the incremental result has the same foreign keys as a fresh create of v2
 	fresh := testdb.Open(testdb.Options{Config: cfg})
-	err := fresh.DB.AutoMigrate(&relOrderV2{})
+	err := fresh.DB.AutoMigrate(v2order())
 	freshFK := strings.Contains(strings.ToUpper(ordersDDL(fresh)), "FOREIGN KEY")
 	fresh.Close()
 	if err != nil {
@@ -819,6 +854,28 @@ func (c relCase) run() string {
 	}
 	if s, _ := dumpSchema(d); s != schema2 {
 		return "second migrate(v2) changed the schema:\n before: " + schema2 + " after: " + s
+	}
+	// the referenced model is migrated with the model that refers to it (AutoMigrate completes its list with
+	// the models foreign keys point at) unless relationships are ignored; listed explicitly it always is
+	if c.OwnerGrows && (!c.Ignore || c.Explicit != "") {
+		if !d.DB.Migrator().HasColumn(&relOwnerV2{}, "Tier") {
+			return "after migrate(v2): the referenced model's new column c20_owners.tier was not added"
+		}
+		if !d.DB.Migrator().HasIndex(&relOwnerV2{}, "idx_c20_owners_tier") {
+			return "after migrate(v2): the referenced model's new index idx_c20_owners_tier was not created"
+		}
+		rec := relOrderV3{Marker: 2001, Number: "B-1", Owner: &relOwnerV2{Name: "o"}}
+		if err := d.DB.Create(&rec).Error; err != nil {
+			return "Create of a v2 record with its v2 owner failed: " + err.Error()
+		}
+		var got relOrderV3
+		if err := d.DB.Preload("Owner").First(&got, rec.ID).Error; err != nil || got.Marker != 2001 || got.Note != "n/a" || got.Owner == nil || got.Owner.Name != "o" || got.Owner.Tier != "std" {
+			return fmt.Sprintf("v2 record with owner does not round-trip: %+v owner %+v (%v)", got, got.Owner, err)
+		}
+		return ""
+	}
+	if c.OwnerGrows {
+		return ""
 	}
 	rec := relOrderV2{Marker: 2001, Number: "B-1", OwnerID: 8}
 	if err := d.DB.Create(&rec).Error; err != nil {
@@ -847,13 +904,15 @@ func TestC20Relations(t *testing.T) {
 			for _, v1rel := range []bool{false, true} {
 				for _, rows := range []int{0, 2} {
 					for _, explicit := range []string{"", "owner-first", "order-first"} {
-						c := relCase{disable, ignore, v1rel, rows, explicit}
-						cls := []string{fmt.Sprintf("relations:disable-fk=%v,ignore-relationships=%v", disable, ignore), fmt.Sprintf("relations:v1-has-relation=%v", v1rel)}
-						evid.Journal(c.String())
-						evid.Case("relations: "+c.String(), rows > 0, nil, cls...)
-						if msg := c.run(); msg != "" {
-							harness.SaveCase("TestC20Relations", c)
-							t.Errorf("C20 violated: %s\n  case: %s", msg, c)
+						for _, grows := range []bool{false, true} {
+							c := relCase{disable, ignore, v1rel, rows, explicit, grows}
+							cls := []string{fmt.Sprintf("relations:disable-fk=%v,ignore-relationships=%v", disable, ignore), fmt.Sprintf("relations:v1-has-relation=%v", v1rel), fmt.Sprintf("relations:referenced-model-grows=%v", grows)}
+							evid.Journal(c.String())
+							evid.Case("relations: "+c.String(), rows > 0, nil, cls...)
+							if msg := c.run(); msg != "" {
+								harness.SaveCase("TestC20Relations", c)
+								t.Errorf("C20 violated: %s\n  case: %s", msg, c)
+							}
 						}
 					}
 				}
